@@ -277,6 +277,11 @@ class IMAPConnection:
 
     async def start_tls(self) -> None:
         ssl_context = self.config.ssl_context
+        # anything received before the handshake was not protected by it, and
+        # must not be read as part of the session the handshake protects
+        buffered = getattr(self.reader, '_buffer', None)
+        if buffered:
+            buffered.clear()
         await self.writer.start_tls(ssl_context)
         self._print('%s <->| %s', '<TLS handshake>')
 
